@@ -39,7 +39,8 @@ let () = iter_lines (fun line ->
         let qc = List.mapi (fun i c -> let ((((a, b), fl), la), lb) = query_conn c in
                   Printf.sprintf "qc%d:%s%s%s:%s:%s" i (b01 a) (b01 b) (b01 fl) (ni la) (ni lb)) (sy_conns !y) in
         let np = List.length (sy_pend !y) in
-        print_char ' '; print_string (String.concat "," (q @ qc @ [Printf.sprintf "qp%d" np]))
+        let nps s = List.length (List.filter (fun p -> (match p with PRead (s', _, _) -> s' | PAccept s' -> s') = s) (sy_pend !y)) in
+        print_char ' '; print_string (String.concat "," (q @ qc @ [Printf.sprintf "qp%d:%d:%d" np (nps SA) (nps SB)]))
       end else begin
         let lbl = match f.(0) with
           | "O" -> LOpen (side_of f.(1))
@@ -50,6 +51,8 @@ let () = iter_lines (fun line ->
           | "Z" -> LCloseSession (side_of f.(1))
           | "D" -> LDeliver (side_of f.(1), n_of_int (int_of_string f.(2)))
           | "F" -> LFail (n_of_int (int_of_string f.(1)))
+          | "B" -> LBreak (n_of_int (int_of_string f.(1)))
+          | "N" -> LNotice (side_of f.(1), n_of_int (int_of_string f.(2)))
           | "T" -> LTick (ns (int_of_string f.(1)))
           | _ -> failwith ("bad step " ^ stp) in
         let (y', evs) = step !y lbl picks in
